@@ -8,7 +8,7 @@ import math
 import z3
 
 from .values import (SymV, Opaque, AbsVal, Obj, ClassRef, ExtClass, FuncRef, BoundMethod, ExtFunc, ModRef,
-                     PyList, PyDict, PySet, SymSeq, SymDict, SymColl, SDict, NestedSDict, NestedInner, NpCell, NpArr, NpSlice, SliceV, NameK, TypeOfSym,
+                     PyList, PyDict, PySet, SymSeq, SymDict, SymColl, SDict, NestedSDict, NestedInner, RecDict, NpCell, NpArr, NpSlice, SliceV, NameK, TypeOfSym,
                      EngineLimit, is_sym, ival, rval, bval, nameval, mk, kind_of, intern_name, NONE_ID, A1, A2,
                      ite_value, seq_concat)
 
@@ -123,6 +123,19 @@ def binop(I, op, a, b, node=None):
         return SymSeq(n, lambda i, x=x: x, "list", True, mutable=True)
     if isinstance(a, PyList) and isinstance(op, ast.Add) and isinstance(b, SymSeq):
         return seq_concat(list(a.items), b)
+    if isinstance(a, SymSeq) and isinstance(op, ast.Add) and isinstance(b, PyList) and a.label != "tuple":
+        na, tail = a.n if not isinstance(a.n, int) else z3.IntVal(a.n), list(b.items)
+
+        def elem(i, a=a, na=na, tail=tail):
+            cur = tail[-1] if tail else None
+            for j in range(len(tail) - 2, -1, -1):
+                cur = ite_value(ival(i) == na + j, tail[j], cur)
+            return ite_value(ival(i) < na, a.elem(i), cur) if tail else a.elem(i)
+        return SymSeq(z3.simplify(na + len(tail)), elem, "list", True, mutable=True)
+    if isinstance(op, ast.Add) and (isinstance(a, SymV) and a.ty == "name" or isinstance(b, SymV) and b.ty == "name") \
+            and kind_of(a) == "name" and kind_of(b) == "name" and a is not None and b is not None:
+        # string concatenation with a symbolic part: ASSUMED to be a function of the two strings (STR_CONCAT)
+        return SymV(STR_CONCAT(nameval(a), nameval(b)), "name")
     if isinstance(a, float) and math.isinf(a) or isinstance(b, float) and math.isinf(b):
         raise EngineLimit("arithmetic with inf")
     k = _num_kind(a, b)
@@ -342,6 +355,8 @@ def contains(I, coll, x, node=None):
         return coll.dom(x)
     if isinstance(coll, SDict):
         return z3.Select(coll.dom, *key_terms(x, coll.arity))
+    if isinstance(coll, RecDict):
+        return z3.Select(coll.dom, nameval(x))
     if isinstance(coll, NestedSDict):
         return z3.Select(coll.dom1, nameval(x))
     if isinstance(coll, NestedInner):
@@ -584,6 +599,19 @@ def setitem(I, obj, key, v, node=None):
         for f, (arr, kind) in list(p.cols.items()):
             p.cols[f] = (z3.Store(arr, k1, z3.Store(z3.Select(arr, k1), k2, conv[kind](v.d[f]))), kind)
         return
+    if isinstance(obj, RecDict):
+        if not isinstance(v, PyDict) or set(v.d) != set(obj.cols) or v.sym:
+            raise EngineLimit("record of another shape stored into a record dict")
+        k = nameval(key)
+        if not obj.fresh:
+            I.ctx.writes.append(("dict", obj))
+        present = z3.Select(obj.dom, k)
+        obj.size = z3.simplify(z3.If(present, obj.size, obj.size + 1))
+        obj.dom = z3.Store(obj.dom, k, z3.BoolVal(True))
+        conv = {"name": nameval, "int": ival, "real": rval, "bool": bval}
+        for f, (arr, kind) in list(obj.cols.items()):
+            obj.cols[f] = (z3.Store(arr, k, conv[kind](v.d[f])), kind)
+        return
     if isinstance(obj, SDict):
         ks = key_terms(key, obj.arity)
         if not obj.fresh:
@@ -701,6 +729,8 @@ def _len(I, v, node=None):
         if getattr(v, "symlen", None) is not None:
             return mk(v.symlen, "int")
         return len(v.items)
+    if isinstance(v, RecDict):
+        return mk(v.size, "int")
     if isinstance(v, SymSeq):
         return v.n if isinstance(v.n, int) else mk(v.n, "int")
     if isinstance(v, SymDict):
@@ -1268,6 +1298,11 @@ def _m_sorted(I, b, a, kw, node):
     if any(is_sym(x) for x in items):
         raise EngineLimit("sorted of symbolic values")
     return PyList(sorted(items), order_determined=True)
+
+
+# ---- strings with symbolic parts: f-strings and concatenation are ASSUMED to be functions of their parts
+STR_CONCAT = z3.Function("str_concat", z3.IntSort(), z3.IntSort(), z3.IntSort())
+STR_FMT1 = z3.Function("str_format1", z3.IntSort(), z3.IntSort(), z3.IntSort())     # (template, part) -> string
 
 
 # ---- address strings: ASSUMED contract of str() / eval() on "(a, b)" keys of a scenario document
